@@ -3,6 +3,7 @@ EXTENDS ServerCore
 AllMixes == [1..R -> Kinds]
 \* every mix that contains at least one request that may wait for a slot
 NoBpOnly == {m \in [1..R -> Kinds] : \E r \in 1..R : m[r] # "bp"}
+NoStream == [1..R -> {"bp", "wait", "short"}]
 Mix3 == { <<"wait", "short", "stream">>, <<"short", "short", "wait">>, <<"wait", "wait", "wait">>, <<"bp", "wait", "short">>,
           <<"stream", "stream", "short">>, <<"wait", "wait", "short">> }
 Mix4 == { <<"wait", "wait", "short", "stream">>, <<"wait", "short", "short", "bp">>, <<"stream", "stream", "wait", "short">>,
